@@ -585,6 +585,9 @@ def case_chart(name, nser, npts, part=None):
                     pt.marker.style = XL_MARKER_STYLE.NONE
                     pt.format.line.width = Pt(1)
                     edited = True
+                # ... nor does the OUTLINE of the series' markers (it is not the series' line)
+                if hasattr(ser, "marker"):
+                    ser.marker.format.line.fill.background()
     except Exception as e:  # noqa: BLE001   (what point formatting accepts is C09's business)
         if part is not None:
             part.outcome("chart_type.point-edit", "raised:%s" % type(e).__name__)
@@ -765,6 +768,14 @@ def _w_shapes(part, chunk):
         part.add("nontrivial", ("shape", name))
 
 
+def _w_one_slide(part, chunk):
+    n, fails = case_charts_on_one_slide()
+    part.count("evaluations")
+    part.count("charts_on_one_slide", n)
+    part.outcome("charts-on-one-slide", "ok" if not fails else "violation")
+    _emit(part, fails, {"kind": "charts-on-one-slide"})
+
+
 def _w_charts(part, chunk):
     # one item = one chart type; its (series, points) grid is walked smallest first so that the witness kept
     # for a signature is the minimal one whatever the seed
@@ -782,6 +793,51 @@ def _w_charts(part, chunk):
                 part.count("chart_readbacks")
                 part.add("nontrivial", ("chart", name, nser, npts))
                 _emit(part, fails, {"kind": "chart", "member": name, "nser": nser, "npts": npts})
+
+
+def case_charts_on_one_slide():
+    """Every writable chart type added to ONE slide; then each chart, the earlier ones included, is read back (live
+    and after re-open): a chart is found through its own graphic frame, whatever other charts the slide holds."""
+    from pptx import Presentation
+    from pptx.enum.chart import XL_CHART_TYPE as E
+    prs, slide = _new_slide()
+    added = []
+    for name in sorted(E.__members__):
+        cd, _kind = _chart_data(name, 2, 3)
+        try:
+            slide.shapes.add_chart(E.__members__[name], 0, 0, 4000000, 3000000, cd)
+        except NotImplementedError:
+            continue
+        except Exception:  # noqa: BLE001   (reported by the per-type cases)
+            continue
+        added.append(name)
+    out = []
+
+    def look(sl, stage):
+        frames = [s for s in sl.shapes if getattr(s, "has_chart", False)]
+        if len(frames) != len(added):
+            out.append(("C20|charts-on-one-slide|count", "%d charts added to one slide, %d found (%s)" % (len(added), len(frames), stage)))
+            return
+        for name, fr in zip(added, frames):
+            try:
+                got = fr.chart.chart_type
+            except Exception as e:  # noqa: BLE001
+                out.append(("C20|charts-on-one-slide|raised|XL_CHART_TYPE.%s|%s" % (name, type(e).__name__),
+                            "chart_type of the %s chart on a slide with %d charts raised %r (%s)" % (name, len(added), e, stage)))
+                continue
+            if got is not E.__members__[name]:
+                out.append(("C20|charts-on-one-slide|XL_CHART_TYPE.%s|got=%s" % (name, getattr(got, "name", got)),
+                            "the chart added as %s on a slide holding %d charts reads back %r (%s)" % (name, len(added), got, stage)))
+    look(slide, "live")
+    buf = io.BytesIO()
+    prs.save(buf)
+    look(Presentation(io.BytesIO(buf.getvalue())).slides[0], "re-opened")
+    seen, uniq = set(), []
+    for sig, what in out:
+        if sig not in seen:
+            seen.add(sig)
+            uniq.append((sig, what))
+    return len(added), uniq
 
 
 # ---- run ------------------------------------------------------------------------------------------------
@@ -900,6 +956,7 @@ def run(ctx):
     chart_names = [m.name for m in XL_CHART_TYPE]
     n_chart_cases = len(chart_names) * len(SERIES_COUNTS) * len(POINT_COUNTS)
     fanout(ctx, _w_charts, ctx.rotate(chart_names), chunk_size=2, min_parallel=8)
+    fanout(ctx, _w_one_slide, ["all"], chunk_size=1, min_parallel=1)
     writable = ctx.sets.get("chart_types_writable", set())
     unsupported = ctx.sets.get("chart_types_unsupported", set())
     if writable & unsupported:
@@ -939,7 +996,7 @@ def run(ctx):
 
     # -- closed form ------------------------------------------------------------------------------------
     n_conn = sum(1 for m in MSO_CONNECTOR_TYPE if m.xml_value)
-    expect = (2 * len(enums) + n_xml + n_exempt) + 2 * len(shapes) + n_conn + n_chart_cases + n_hist + len(shapes) + len(acc)
+    expect = (2 * len(enums) + n_xml + n_exempt) + 2 * len(shapes) + n_conn + n_chart_cases + 1 + n_hist + len(shapes) + len(acc)   # + 1: all writable charts on one slide
     if ctx.counters["evaluations"] != expect:
         raise HarnessError("evaluations %d != closed form %d" % (ctx.counters["evaluations"], expect))
     ctx.extra["closed_form_size"] = expect
@@ -1007,6 +1064,8 @@ def replay(data):
         fails = case_connector(data["member"])
     elif k == "chart":
         fails = case_chart(data["member"], data["nser"], data["npts"])[1]
+    elif k == "charts-on-one-slide":
+        fails = case_charts_on_one_slide()[1]
     elif k == "authored-chart":
         fails = case_acceptance_chart(data["label"], data["slide"], data["shape"], data["expected"])
     elif k == "history":
